@@ -189,17 +189,19 @@ def rule_read_side(ctx, db):
     if not fb:
         ctx.missing("R4", "SyncReadBuf::fill_buf")
     for f in fb:
-        ar = calls(f, r"SyncReadBuf::available_read$")
+        from ..util import deep_deps
         oks = [(bi, st) for bi, si, st in f.stmts() if st.get("a") and st["a"]["l"] == 0 and st.get("r", {}).get("k") == "agg" and st["r"].get("var") == "Ok"]
-        good = bool(ar) and bool(oks)
+        good = bool(oks)
         for bi, st in oks:
             pl = op_place(st["r"]["ops"][0]) if st["r"].get("ops") else None
-            if pl is None or not any(call_matches(ct, r"SyncReadBuf::available_read$") for _, ct in data_deps(f, pl["l"])[1]):
+            # the buffer's content: Buffer::buffer(), reached directly or through a private helper (available_read)
+            if pl is None or not any(n.endswith("buffer::Buffer::<B>::buffer") for n in deep_deps(db, f, pl["l"])[0]):
                 good = False
         ctx.ob("R4", "fill_buf-hands-out-the-buffer", good,
                "every Ok(..) of fill_buf is the slice obtained from available_read() — never a constant empty slice while bytes "
                "are still buffered", f)
-        wb = [bb for bb, _ in calls(f, r"sync_stream::would_block$")]
+        # (the WouldBlock that reports "the buffer is lent to an in-flight read" is a different one: it is decided by has_inner())
+        wb = [bb for bb, _ in calls(f, r"sync_stream::would_block$") if guarded_by_bool(f, bb, r"Buffer::<B>::has_inner$", False) is None]
         def eof_switch(b):
             for bi, blk in enumerate(f.blocks):
                 t = blk["t"]
@@ -227,7 +229,8 @@ def rule_read_side(ctx, db):
                 if nm == "read_buf_uninit":
                     ok = ok or any(call_matches(ct, r"core::cmp::Ord::min$") for _, ct in cr)
                 else:
-                    ok = ok or (f.kind == "closure" and 2 in locs)
+                    # `.inspect(|n| self.consume(*n))` (closure argument) or `if let Ok(n) = slice.read(buf) { self.consume(n) }`
+                    ok = ok or (f.kind == "closure" and 2 in locs) or any(call_matches(ct, r"std::io::Read::read$") for _, ct in cr)
         if not fam:
             ctx.missing("R4", "SyncReadBuf::" + nm)
         ctx.ob("R4", "consumes-the-copied-count:" + nm, ok,
